@@ -131,7 +131,7 @@ class Loops:
             return None
         for inv in cands:
             names = [a.arg for a in inv.args.args if a.arg != "old"]
-            if all(n in fr.env or n in fr.ghost or n.startswith("_i") or n.startswith("_seq") for n in names):
+            if all(n in fr.env or n in fr.ghost or n.startswith("_i") or n.startswith("_seq") or n.startswith("_done") for n in names):
                 return inv
         return cands[0]
 
@@ -202,6 +202,17 @@ class Loops:
             fr.env[seqname] = base
         elif isinstance(src, VGen) and src.kind == "dictitems":
             fr.env[seqname] = keys
+        # ghost: the set of keys already processed, for iteration over a dict (`_done<ordinal>` in invariants).
+        # Only consequences of its definition {keys[m] | m < cursor} are supplied (keys are distinct and
+        # cover the domain): it is a subset of the domain, does not hold the current key, is the whole
+        # domain at exit; it starts empty and gains the current key at the end of the body.
+        donename = f"_done{ordinal}"
+        dict_iter = isinstance(src, VGen) and src.kind == "dictitems"
+        if dict_iter:
+            kt = src.d.ty.k
+            dset_ty = TSet(kt)
+            dom = src.d.ty.dom(src.d.term)
+            fr.env[donename] = SV(dset_ty, z3.K(kt.sort(), z3.BoolVal(False)))
         # init
         fr.env[cursor] = SV(TInt, z3.IntVal(0))
         self.check_inv(it, fr, inv, "init", ordinal, st.lineno)
@@ -210,6 +221,14 @@ class Loops:
         i = it.fresh(cursor, z3.IntSort())
         it.assume(z3.And(i >= 0, i <= n))
         fr.env[cursor] = SV(TInt, i)
+        if dict_iter:
+            D = it.fresh(donename, dset_ty.sort())
+            kq = it.bound("dk", kt.sort())
+            it.assume(z3.ForAll([kq], z3.Implies(z3.Select(D, kq), z3.Select(dom, kq))))
+            it.assume(z3.Implies(i < n, z3.Not(z3.Select(D, keys.term[i]))))
+            it.assume(z3.Implies(i >= n, D == dom))
+            fr.env[donename] = SV(dset_ty, D)
+            it.notes.add("loops: ghost set of processed keys for dict iteration (subset of the domain, excludes the current key, equals the domain at exit)")
         self.assume_inv(it, fr, inv)
         if it.branch(i < n, site=("for", st.lineno)):
             it.assign(st.target, elem_at(i), fr)
@@ -221,6 +240,8 @@ class Loops:
                 # leaving through break: continue after the loop (no else)
                 return
             fr.env[cursor] = SV(TInt, i + 1)
+            if dict_iter:
+                fr.env[donename] = SV(dset_ty, z3.Store(D, keys.term[i], z3.BoolVal(True)))
             self.check_inv(it, fr, inv, "preserved", ordinal, st.lineno)
             raise PathAbort("loop body end")
         it.exec_block(st.orelse, fr)
@@ -280,7 +301,7 @@ class Loops:
         for name, term in self.eval_inv(it, fr, inv):
             if name == "decreases":
                 continue
-            if name.startswith("A_"):
+            if name.startswith("A_") or name.startswith("D_"):
                 # instance of the defining equation of a ghost function at the cursor: assumed
                 it.notes.add(f"ghost definition instance assumed at loop cursor: {name}")
                 it.assume(term)
